@@ -70,9 +70,24 @@ out.append("## 11. Seeded changes: which checks catch which\n\nEach change was w
            "something specific to manifest. Each was confirmed by the integrator in a scratch worktree (`tools/seedtest.sh`: the "
            "demonstration passes on the unchanged tree and fails with the change; the baseline suite is unaffected: 155 passed, "
            "the same 13 environment failures) and is kept under `seeded/<id>/` (patch.diff, demo.py, meta.json). No change was "
-           "ever committed to `/repo`. Rows whose id contains `-r2-` / `-r3-` are from the second / third round. " + str(len(rows) - sum('initially MISSED' in r for r in rows)) + " of the " + str(len(rows)) + " were detected by the checks as they stood when the change arrived; the " + str(sum('initially MISSED' in r for r in rows)) + " marked *initially "
+           "ever committed to `/repo`. Rows whose id contains `-r2-` … `-r5-` are from the later rounds (each round asked for something the earlier ones had not tried: rare branches, order of operations inside a step, helpers in other files, unusual-but-legal configurations, later episodes). " + str(len(rows) - sum('initially MISSED' in r for r in rows)) + " of the " + str(len(rows)) + " were detected by the checks as they stood when the change arrived; the " + str(sum('initially MISSED' in r for r in rows)) + " marked *initially "
            "MISSED* led to the generator improvements named in the row and are detected now.\n\n"
            "| seeded change | property | what it does | detected by |\n|---|---|---|---|\n" + "\n".join(rows) + "\n\n"
+           "---------------------------------------------------------------------------------------\n")
+# section 12: behaviour-preserving rewrites
+rows = []
+for d in sorted(glob.glob(os.path.join(V, "harmless", "*"))):
+    mp = os.path.join(d, "meta.json")
+    if not os.path.exists(mp):
+        continue
+    m = json.load(open(mp))
+    what = " ".join(str(m.get("what", "")).split())
+    if len(what) > 260:
+        what = what[:257] + "…"
+    rows.append(f"| `{os.path.basename(d)}` | {', '.join(m.get('files', [])) if isinstance(m.get('files'), list) else m.get('files')} | {what} |")
+extra = rd("design/_65_harmless.md") if os.path.exists(os.path.join(V, "design/_65_harmless.md")) else ""
+out.append("## 12. Behaviour-preserving rewrites: the checks stay quiet\n\n" + extra +
+           "\n| rewrite | files | what was restructured |\n|---|---|---|\n" + "\n".join(rows) + "\n\n"
            "---------------------------------------------------------------------------------------\n")
 out.append(rd("design/_99_appendix.md"))
 open(os.path.join(V, "DESIGN.md"), "w").write("\n".join(out))
